@@ -393,6 +393,13 @@ def incremental_space(res, shape, Wsets):
 
 # ---------------------------------------------------------------- enum and string-like classes (log based)
 
+def _prep(meta, name, bases, members):
+    d = meta.__prepare__(name, bases)
+    for k, v in members.items():
+        d[k] = v
+    return d
+
+
 def scalar_space(res):
     for kind in ('userstring', 'ystring', 'strsub'):
         for Sset in subsets(2):
@@ -429,6 +436,88 @@ def scalar_space(res):
                         res.violation('C10:savorize-log:scalar', 'savorize calls %s for %r, the rule gives %s' % (sav, text, exp), pl)
                     else:
                         res.hist['load-ok:scalar-class'] += 1
+    # dumping: _yatiml_sweeten of string-like classes follows the same rule (own-body hooks of the registered bases,
+    # then the class's own; nothing inherited, nothing from an unregistered mix-in)
+    for kind in ('userstring', 'ystring', 'strsub'):
+        for Wset in subsets(2):
+            for mix in (False, True):
+                classes = []
+                if mix:
+                    classes.append({'name': 'Mw', 'kind': kind, 'registered': False, 'hooks': {'sweeten': [('log',)]}})
+                for i in range(2):
+                    hooks = {'sweeten': [('log',)]} if i in Wset else {}
+                    bases = ['W%d' % (i - 1)] if i else (['Mw'] if mix else [])
+                    classes.append({'name': 'W%d' % i, 'kind': kind, 'bases': bases, 'hooks': hooks})
+                spec = {'classes': classes, 'root': ('cls', 'W1')}
+                b = models.build(spec)
+                for fn_name, mkfn in (('dumps', yatiml.dumps_function), ('dumps_json', yatiml.dumps_json_function)):
+                    fn = mkfn(*b.registered)
+                    for cname, lin in (('W1', [0, 1]), ('W0', [0])):
+                        v = b.classes[cname]('abc')
+                        del LOG[:]
+                        res.states += 1
+                        res.traces += 1
+                        res.transitions += 1
+                        pl = {'spec': spec, 'model': models.source_of(spec), 'side': 'dump-scalar', 'W': sorted(Wset), 'text': '',
+                              'fn': fn_name}
+                        try:
+                            fn([v])
+                        except Exception as e:     # noqa
+                            res.violation('C10:dump-failed:scalar', '%s of %s raised %s: %s' % (fn_name, cname, type(e).__name__, e), pl)
+                            continue
+                        sw = [e for e in LOG if e[0] == 'sweeten']
+                        once = [('sweeten', 'W%d' % j, 'W%d' % j) for j in lin if j in Wset]
+                        if Wset:
+                            res.nontrivial += 1
+                        # the object is referred to twice: represented (and sweetened) once, or once per reference
+                        if sw != once:
+                            bad = [e for e in sw if e[1] != e[2] or e[1] == 'Mw']
+                            what = 'mixin' if any(e[1] == 'Mw' for e in sw) else ('other-class' if bad else 'count')
+                            res.violation('C10:sweeten-scalar-class-%s:%s' % (what, kind),
+                                          '%s of a %s(%s) object: sweeten calls %s, the rule gives %s' % (fn_name, cname, kind, sw, once), pl)
+                        else:
+                            res.hist['dump-ok:scalar-class'] += 1
+    for Wbase in (False, True):
+        for mix in (False, True):
+            # an enum with members cannot be subclassed; the hooks can sit on a member-less base enum or a mix-in
+            import enum as _enum
+            ns = {}
+
+            def mk(name):
+                def hook(cls, node):
+                    LOG.append(('sweeten', name, cls.__name__))
+                return classmethod(hook)
+
+            class Lower:
+                _yatiml_sweeten = mk('Mixin')
+            BaseE = _enum.Enum('BaseE', {})
+            if Wbase:
+                BaseE._yatiml_sweeten = mk('BaseE')
+            bases = ((Lower,) if mix else ()) + (BaseE,)
+            Col = BaseE.__class__('Col', bases, _prep(BaseE.__class__, 'Col', bases, {'RED': 1, 'GREEN': 2}))
+            Col._yatiml_sweeten = mk('Col')
+            for reg in ([BaseE, Col], [Col]):
+                fn = yatiml.dumps_function(*reg)
+                del LOG[:]
+                res.states += 1
+                res.traces += 1
+                res.transitions += 1
+                pl = {'spec': {'classes': [], 'root': 'any'}, 'model': ['enum Col(%sBaseE) registered: %s' % ('Lower, ' if mix else '', [c.__name__ for c in reg])],
+                      'side': 'dump-scalar', 'W': [], 'text': '', 'fn': 'dumps'}
+                try:
+                    fn([Col.RED])
+                except Exception as e:     # noqa
+                    res.violation('C10:dump-failed:enum', 'dumps raised %s: %s' % (type(e).__name__, e), pl)
+                    continue
+                sw = [e for e in LOG if e[0] == 'sweeten']
+                exp = ([('sweeten', 'BaseE', 'BaseE')] if (Wbase and BaseE in reg) else []) + [('sweeten', 'Col', 'Col')]
+                res.nontrivial += 1
+                if sw != exp:
+                    res.violation('C10:sweeten-enum:%s' % ('mixin' if any(e[1] == 'Mixin' for e in sw) else 'base'),
+                                  'dumps of Col.RED (registered %s): sweeten calls %s, the rule gives %s' % (
+                                      [c.__name__ for c in reg], sw, exp), pl)
+                else:
+                    res.hist['dump-ok:enum'] += 1
     for has_s in (False, True):
         for has_r in (False, True):
             hooks = {}
